@@ -356,10 +356,19 @@ func (r *run) worldContext(bt int64) (state.WorldContext, module.BlockInfo, erro
 	return state.NewWorldContext(ws, bi, common.NewConsensusInfo(nil, nil, nil), r.e.nctx.Platform), bi, nil
 }
 
+// cand is what one real Candidate call returned, in abstract terms; the specification judges it (Check_TxPool.tla)
+type cand struct {
+	Step int   `json:"step"`
+	Bt   int64 `json:"bt"`
+	Sel  []atx `json:"sel"`
+	Comm []atx `json:"comm"`
+}
+
 type verdict struct {
 	violation  bool
 	key, what  string
 	divergence string
+	cands      []cand
 }
 
 func (v *verdict) div(format string, a ...interface{}) {
@@ -395,6 +404,8 @@ func (r *run) exec() (v verdict) {
 	}
 	c := r.e.nctx.C
 	committed := map[int]bool{}
+	abstract := map[int]atx{}
+	var comm []atx
 	for i, s := range r.in.Steps {
 		switch s.Op {
 		case "add":
@@ -403,6 +414,7 @@ func (r *run) exec() (v verdict) {
 				v.div("step %d: cannot build transaction: %v", i, err)
 				return
 			}
+			abstract[s.Tx.N] = s.Tx
 			res := "ok"
 			if err := r.pool.Add(tx, s.Direct); err != nil {
 				switch {
@@ -426,6 +438,9 @@ func (r *run) exec() (v verdict) {
 					return
 				}
 				list = append(list, tx)
+				if !committed[a.N] {
+					comm = append(comm, a)
+				}
 				committed[a.N] = true
 			}
 			tl := transaction.NewTransactionListFromSlice(c.Database(), list)
@@ -472,6 +487,12 @@ func (r *run) exec() (v verdict) {
 			if !sameInts(got, want) {
 				v.div("step %d: Candidate(bt=%d, max=%d) returned transactions %v, spec says %v", i, s.Bt, s.Max, got, want)
 			}
+			// the real output, to be judged by the specification's own bookkeeping (window, ids, cumulative balance)
+			cd := cand{Step: i, Bt: s.Bt, Sel: []atx{}, Comm: append([]atx{}, comm...)}
+			for _, n := range got {
+				cd.Sel = append(cd.Sel, abstract[n])
+			}
+			v.cands = append(v.cands, cd)
 			// verdict: the proposed list must validate as a block on the same parent state
 			if len(txs) > 0 {
 				tl := transaction.NewTransactionListFromSlice(c.Database(), txs)
@@ -601,9 +622,12 @@ func TestReplay(t *testing.T) {
 		case v.violation:
 			out.Violation(id, v.key, v.what, detail)
 		case v.divergence != "":
-			out.Divergence(id, v.divergence, detail)
+			// (the real Candidate outputs are judged by the specification also when they differ from its prediction)
+			out.Emit(tlaio.Record{Case: id, Status: "divergence", What: v.divergence, Detail: detail, Nontrivial: true,
+				Extra: map[string]interface{}{"cands": v.cands}})
 		default:
-			out.OK(id, nontrivial, sig(in))
+			out.Emit(tlaio.Record{Case: id, Status: "ok", Nontrivial: nontrivial, Sig: sig(in),
+				Extra: map[string]interface{}{"cands": v.cands}})
 		}
 		return nil
 	})
